@@ -27,7 +27,9 @@ type c18State struct {
 }
 
 func (w *W) c18Init() *c18State {
-	doc := "[" + strings.Repeat("0.5,", c18Batch-1) + "0.5]"
+	// every other slot starts life as an over-long integer literal: a float that carries the
+	// "overflowed integer" parse flag in its tag word until SetFloat replaces it
+	doc := "[" + strings.Repeat("0.5,18446744073709551616,", c18Batch/2-1) + "0.5,18446744073709551616]"
 	pj, err := simdjson.Parse([]byte(doc), nil)
 	if err != nil {
 		w.Inconclusive("C18 template does not parse: " + err.Error())
